@@ -179,9 +179,9 @@ def _shapes(tier, tracked=False):
                         out.append((M, sigset, ks, ts, split_m, 0, ('notes',), final, 0, False, 0, True))
     # per-spine key and time signatures; three spines, the inner or the last one splits (cells to the left of the operators)
     for M in (2, 3):
-        for ks, ts in ((2, 0), (3, 0), (2, 1)):
+        for ks, ts in ((2, 0), (3, 0)):
             for split_m, nested, sc in ((0, 0, 0), (1, 0, 0), (1, 0, 1), (2, 1, 1), (1, 0, ks - 1), (M, 0, 1)):
-                for final in (0, 1):
+                for final in ((0, 1) if M == 3 else (1,)):
                     out.append((M, 4, ks, ts, split_m, nested, ('notes', 'chords'), final, 0, False, 0, False, sc))
     # global comments directly after every barline / around the score
     for M in (2, 3):
